@@ -9,7 +9,8 @@
 (declare-fun running_b!9 () Int)
 (declare-fun total_b!10 () Int)
 (declare-fun t0!1 () Real)
-(declare-fun t!12 () Real)
+(declare-fun t_begin!12 () Real)
+(declare-fun t!13 () Real)
 (assert
  (>= completed_a!2 0))
 (assert
@@ -42,12 +43,14 @@
  (let (($x63 (<= running_b!9 0)))
  (not $x63)))
 (assert
+ (>= t_begin!12 t0!1))
+(assert
  (>= running_a!4 1))
 (assert
- (>= t!12 t0!1))
+ (>= t!13 t_begin!12))
 (assert
- (let ((?x41 (+ running_a!4 running_b!9)))
-(let ((?x79 (to_real ?x41)))
-(let (($x80 (and (distinct ?x79 0.0) true)))
-(not $x80)))))
+ (let ((?x62 (+ running_a!4 running_b!9)))
+(let ((?x84 (to_real ?x62)))
+(let (($x85 (and (distinct ?x84 0.0) true)))
+(not $x85)))))
 (check-sat)
